@@ -824,6 +824,158 @@ def run_c11(tier, seed, t0, replay_item=None):
     return finish(rep, t0)
 
 
+# ----------------------------------------------------------------------------- C03 / C08 / C09 pipeline
+
+def mc_pipeline():
+    out, st = core.tlc("MC_Pipeline.tla", "MC_Pipeline.cfg", workers=2, timeout=900)
+    if st["error"] or st["violation"] or "Assumption" in out and "is false" in out:
+        raise Infra("Pipeline.tla: the protocol model violates its own properties:\n" + out[-2500:])
+    out2, st2 = core.tlc("MC_Pipeline.tla", "MC_Pipeline_dev.cfg", workers=2, timeout=900)
+    if "is false" not in out2:
+        raise Infra("Pipeline.tla with deviation SuffixOnlyWithData should violate C03_SuffixInverse")
+    cells = 8 * 3 * 3 * 4 * 2 * 2
+    return {"distinct": cells, "generated": cells * 5, "wall_s": st["wall_s"]}
+
+
+SUFFIXY = {"": "f.bin", "gzip": "a.gz", "parallelgzip": "a.gz", "lz4": "a.lz4", "zstandard": "a.zst", "brotli": "a.br", "bzip2": "a.bz2", "parallelbzip2": "a.bz2"}
+
+
+def run_c03(tier, seed, t0, replay_item=None):
+    prop = "C03"
+    rep = Report(prop, tier, seed, "model_checking")
+    runner = core.build_runner()
+    core.ensure_keys(runner)
+    mc = {"distinct": 0, "generated": 0}
+    if replay_item is not None:
+        items = [replay_item]
+    else:
+        mc = mc_pipeline()
+        log("[C03] TLC evaluated C03_RoundTrip / C03_SuffixInverse on %d matrix cells of Pipeline.tla (and detects the repaired suffix defect as deviation)" % mc["distinct"])
+        rng = random.Random(seed)
+        pipelines = [(c, l, e, s) for c in conc.COMPRESSIONS for l in conc.LEVELS for e in conc.ENCRYPTIONS for s in conc.SIGNATURES]
+        rng.shuffle(pipelines)
+        if tier == "quick":
+            # every compression x encryption x signature value at least twice, levels rotating
+            chosen, seen = [], {}
+            for p in pipelines:
+                keys = [("c", p[0]), ("e", p[2]), ("s", p[3]), ("ce", p[0], p[2]), ("es", p[2], p[3])]
+                if any(seen.get(k, 0) < 1 for k in keys):
+                    chosen.append(p)
+                    for k in keys:
+                        seen[k] = seen.get(k, 0) + 1
+            pipelines = chosen[:60]
+        items = []
+        for i, (c, l, e, s) in enumerate(pipelines):
+            rs = rng.choice(conc.RECORD_SIZES)
+            sizes = conc.SIZE_CLASSES(rs) + [0]
+            for j in range(1 if tier == "quick" else 4):
+                size = rng.choice(sizes)
+                if tier == "quick" and size > 200000:
+                    size = rs * 512 + 1
+                ext = SUFFIXY[c] if rng.random() < 0.5 else "f.bin"
+                if e and rng.random() < 0.5:
+                    ext = ext + "." + e
+                items.append({"id": "C03-%d-%d-%d" % (seed, i, j), "cfg": {"rs": rs, "comp": c, "level": l, "enc": e, "sig": s, "cache": rng.choice(conc.CACHES)},
+                              "size": size, "dist": rng.choice(conc.DISTS), "seed": rng.randrange(1 << 30), "name": ext, "nonreg": True})
+    res, crashed = core.run_batches(runner, "pipe", items, per_batch=3, timeout=3000)
+    by_id = {it["id"]: it for it in items}
+    done, checks_n, infra, shapes = 0, 0, [], set()
+    for bid, why in crashed.items():
+        rep.violation("the process died in pipeline cell %s: %s" % (by_id[bid], why[-2000:]), {"kind": "pipe", "prop": prop, "item": by_id[bid]})
+    for bid, r in res.items():
+        it = by_id[bid]
+        if r.get("infra"):
+            infra.append("%s: %s" % (bid, r["infra"]))
+            continue
+        done += 1
+        checks_n += r.get("checks", 0)
+        shapes.add((it["cfg"]["comp"], it["cfg"]["enc"], it["cfg"]["sig"], it["cfg"]["level"]))
+        unknown = []
+        for f in r.get("findings", []):
+            k = match_known(prop, f, it)
+            if k:
+                rep.known[k["id"]] = "%s (%s)" % (k["what"], k["id"])
+            else:
+                unknown.append(f)
+        if unknown:
+            f = unknown[0]
+            rep.violation("%s %s: %s" % (bid, f.get("call", ""), f["msg"]), {"kind": "pipe", "prop": prop, "item": it, "findings": unknown[:10]})
+    if infra and len(infra) > len(items) // 2 and not rep.violations:
+        raise Infra("; ".join(infra[:4]))
+    rep.coverage = {"states": max(1, mc["distinct"]), "transitions": max(1, mc["generated"]), "traces_validated_against_impl": done,
+                    "samples": [items[0]] if items else ["none"], "evaluations": checks_n, "distinct_nontrivial": len(shapes),
+                    "rule": "cells of the (compression x level x encryption x signature) matrix x record size x write cache x content size class x byte distribution x name kind; per cell: create-empty, fs write/read, reopen, Operations.Restore, recovery.Fetch by position, content update, empty update, archive-with-content, rebuild, non-regular codec parameters and tape-writer padding; distinct = distinct pipelines",
+                    "skipped": len(infra)}
+    rep.assumptions = ["Pipeline.tla treats codecs/ciphers/signatures as opaque constructors; byte fidelity is decided by execution",
+                       "real tape drives (mtio ioctls) are not available; non-regular parameters are exercised at the codec and tape-writer seams"]
+    return finish(rep, t0)
+
+
+def run_sec(prop, tier, seed, t0, replay_item=None):
+    mode = "attack" if prop == "C08" else "clear"
+    rep = Report(prop, tier, seed, "model_checking")
+    runner = core.build_runner()
+    core.ensure_keys(runner)
+    mc = {"distinct": 0, "generated": 0}
+    if replay_item is not None:
+        items = [replay_item]
+    else:
+        mc = mc_pipeline()
+        log("[%s] TLC evaluated %s on Pipeline.tla" % (prop, "C08_OnlySigned (5 forgery kinds x 72 configurations)" if prop == "C08" else "C09_Clear / C09_WrongKey (every operation kind x configuration with encryption)"))
+        rng = random.Random(seed)
+        sigs = ["minisign", "pgp"] if prop == "C08" else ["", "minisign", "pgp"]
+        encs = ["", "age", "pgp"] if prop == "C08" else ["age", "pgp"]
+        combos = [(s_, e, c) for s_ in sigs for e in encs for c in conc.COMPRESSIONS]
+        rng.shuffle(combos)
+        if tier == "quick":
+            # every signature x encryption pair, compressions rotating
+            seen, chosen = set(), []
+            for s_, e, c in combos:
+                if (s_, e) not in seen or (c not in {x[2] for x in chosen}):
+                    chosen.append((s_, e, c))
+                    seen.add((s_, e))
+            combos = chosen[:14]
+        items = []
+        for i, (s_, e, c) in enumerate(combos):
+            items.append({"id": "%s-%d-%d" % (prop, seed, i), "cfg": {"rs": rng.choice([1, 2, 3, 7, 20]), "comp": c, "enc": e, "sig": s_, "level": rng.choice(conc.LEVELS), "cache": rng.choice(conc.CACHES)},
+                          "mode": mode, "seed": rng.randrange(1 << 30), "flips": (70 if tier == "quick" else 0), "stride": (1 if tier == "quick" else 3)})
+    res, crashed = core.run_batches(runner, "sec", items, per_batch=1, timeout=3300)
+    by_id = {it["id"]: it for it in items}
+    done, checks_n, infra, kinds, samples = 0, 0, [], {}, []
+    for bid, why in crashed.items():
+        rep.violation("the process died in %s: %s" % (by_id[bid], why[-2000:]), {"kind": "sec", "prop": prop, "item": by_id[bid]})
+    for bid, r in res.items():
+        it = by_id[bid]
+        if r.get("infra"):
+            infra.append("%s: %s" % (bid, r["infra"]))
+            continue
+        done += 1
+        checks_n += r.get("checks", 0)
+        for k, v in (r.get("attacks") or {}).items():
+            kinds[k] = kinds.get(k, 0) + v
+        samples += (r.get("sample") or [])[:2]
+        unknown = []
+        for f in r.get("findings", []):
+            k = match_known(prop, f, it)
+            if k:
+                rep.known[k["id"]] = "%s (%s)" % (k["what"], k["id"])
+            else:
+                unknown.append(f)
+        if unknown:
+            f = unknown[0]
+            rep.violation("%s %s: %s" % (bid, f.get("call", ""), f["msg"]), {"kind": "sec", "prop": prop, "item": it, "findings": unknown[:10]})
+    if infra and len(infra) > len(items) // 2 and not rep.violations:
+        raise Infra("; ".join(infra[:4]))
+    rule = ("a small signed history (mkdir, writes, chmod, chown, chtimes, rename, remove) is written under each configuration; then (i) single bytes of the tape are altered (quick: ~70 spread positions plus every record's header/PAX/data regions; thorough: every third byte) and (ii) archives forged without the signing key are appended (plain member, embedded header without / with empty / non-base64 / non-packet / random signature, reused signature of another header, edited header with kept signature, signature by another key, swapped signatures); every header the indexer accepts must be one the untouched tape yields and every restore must return bytes signed under that name or fail; distinct = attack kinds"
+            if prop == "C08" else
+            "a small history with unique high-entropy markers in directory, file and renamed names, contents, uid/gid and timestamps is written under each encrypting configuration; the raw tape is searched for every marker and for STFS action keywords in raw, hex and three base64 alignments, outer tar headers are read without keys and must show only size and STFS.EmbeddedHeader, and an index rebuild and a fetch with a different private key must fail; distinct = check kinds")
+    rep.coverage = {"states": max(1, mc["distinct"]), "transitions": max(1, mc["generated"]), "traces_validated_against_impl": done,
+                    "samples": samples[:8] or ["none"], "evaluations": checks_n, "distinct_nontrivial": len(kinds), "rule": rule, "kinds": kinds, "skipped": len(infra)}
+    rep.assumptions = ["Pipeline.tla treats ciphers and signatures as perfect (Dolev-Yao); nothing is claimed about cryptographic strength",
+                       "test keys are generated once per sandbox by utility.Keygen"]
+    return finish(rep, t0)
+
+
 # ----------------------------------------------------------------------------- dispatch
 
 def run(prop, tier, seed, t0):
@@ -841,6 +993,10 @@ def run(prop, tier, seed, t0):
         return run_c10(tier, seed, t0)
     if prop == "C11":
         return run_c11(tier, seed, t0)
+    if prop == "C03":
+        return run_c03(tier, seed, t0)
+    if prop in ("C08", "C09"):
+        return run_sec(prop, tier, seed, t0)
     print("property %s is not claimed by this framework (see MANIFEST.json not_applicable)" % prop, file=sys.stderr)
     return 2
 
@@ -852,6 +1008,10 @@ def replay(prop, path):
         it = payload["item"]
         it["oracles"] = [prop]
         return run_core(prop, "quick", 0, t0, replay_item=it)
+    if payload.get("kind") == "sec":
+        return run_sec(prop, "quick", 0, t0, replay_item=payload["item"])
+    if payload.get("kind") == "pipe":
+        return run_c03("quick", 0, t0, replay_item=payload["item"])
     if payload.get("kind") == "conc":
         return run_c11("quick", 0, t0, replay_item=payload["item"])
     if payload.get("kind") == "fault":
